@@ -41,6 +41,11 @@
                                  different numbers (exact); required of the implementation: names deterministic
                                  and pairwise distinct, every variation saved through ONE template loads back
                                  as what was saved into it
+   Numbers: besides rationals, +inf / -inf (d = 0) and -0.0 (n = 0, d = -1) occur in every float position.  NaN is
+   EXCLUDED from the property: NaN != NaN, an object holding one is not even equal to itself.
+   Strings are data: values, result names and templates contain format braces, '%', case variants.
+   Frame conditions (ReqObject / ReqFiles, emitted as `req`): ArgumentsUnchanged, QueryIsPure,
+   EarlierResultsUnchanged, LoadedIsIndependent, ReturnedNameIsTheFile, RejectedSaveChangesNothing.
    Every scalar FIELD also takes its falsy-but-valid values (current_rep 0, runned_reps 0 / [0,0] / [], value 0 /
    0.0 / "" / None / [] / empty set, result name "", original_filename None / "", unpack index 0).
    Pickle is the identity on this universe at model level; the harness checks it on the real files.
